@@ -442,3 +442,17 @@ Proof.
   intros Hc Hi. unfold add_to_dest_cs. rewrite vget_vkr by exact Hi.
   apply Qplus_comp; [reflexivity|]. apply (free_eq_assembled n Sm lam c inv i Hc Hi).
 Qed.
+
+Lemma add_to_dest_free_spec n Sm lam c inv outv i :
+  (i < n)%nat ->
+  vget (add_to_dest_free n Sm lam c inv outv) i == vget outv i + vget (add_eval_power n Sm lam c inv) i.
+Proof. intro Hi. unfold add_to_dest_free. apply vget_vkr; exact Hi. Qed.
+
+Lemma add_to_dest_agree n Sm lam c inv outv i :
+  c <> [] -> (i < n)%nat ->
+  vget (add_to_dest_free n Sm lam c inv outv) i == vget (add_to_dest_cs n Sm lam c inv outv) i /\
+  vget (add_to_dest_cs n Sm lam c inv outv) i == vget outv i + fmv n (Qspec n (get Sm) (vget lam) c) (vget inv) i.
+Proof.
+  intros Hc Hi. rewrite add_to_dest_free_spec, add_to_dest_cs_spec by assumption. split; [reflexivity|].
+  apply Qplus_comp; [reflexivity|]. rewrite add_eval_power_spec by assumption. symmetry. apply fmv_Qspec; exact Hi.
+Qed.
